@@ -85,6 +85,30 @@ mut("c07_result_aliases_training", "C07", "matrices.py",
     "        new_instance.slices = self.slices\n        new_instance.evaluated = True\n        return new_instance",
     "        new_instance.slices = self.slices\n        new_instance.evaluated = True\n        if new_instance.design_matrix.shape == self.design_matrix.shape and np.array_equal(new_instance.design_matrix, self.design_matrix):\n            new_instance.design_matrix = self.design_matrix  # do not keep two copies of the same numbers\n        return new_instance",
     "evaluating all training rows in order returns the training array itself; the caller then writes into it")
+mut("c07_global_memo_halfbuilt", "C07", "contrasts.py",
+    """    expanded = list(enumerate(tupl))
+    expanded_subsets = list(helper(expanded))
+    expanded_subsets.sort()
+    expanded_subsets.sort(key=len)
+
+    for subset in expanded_subsets:
+        yield tuple(obj for (idx, obj) in subset)
+""",
+    """    n = len(tupl)
+    if n not in _SUBSET_INDEXES:
+        # the index pattern only depends on the number of components: compute it once per process
+        _SUBSET_INDEXES[n] = []
+        expanded = list(enumerate(range(n)))
+        expanded_subsets = list(helper(expanded))
+        expanded_subsets.sort()
+        expanded_subsets.sort(key=len)
+        for subset in expanded_subsets:
+            _SUBSET_INDEXES[n].append(tuple(idx for (idx, obj) in subset))
+
+    for indexes in _SUBSET_INDEXES[n]:
+        yield tuple(tupl[i] for i in indexes)
+""",
+    "an interruption while the process-wide memo is being filled by the first build of the process")
 # ------------------------------------------------------------------ C10
 mut("c10_zero_rule_missing", "C10", "terms/variable.py",
     "        contribution[idxs_original == -1] = 0\n", "", "unseen level in warning/silent mode")
@@ -141,6 +165,8 @@ mut("c17_response_not_filtered", "C17", "matrices.py",
     "proportion response on a frame with more than 20 rows")
 
 PRELUDES = {
+    "c07_global_memo_halfbuilt": ("contrasts.py", "# see https://github.com/pydata/patsy/blob/master/patsy/redundancy.py",
+                                  "# see https://github.com/pydata/patsy/blob/master/patsy/redundancy.py\n_SUBSET_INDEXES = {}"),
     "c07_transform_cached_by_name": ("terms/call_resolver.py", "class CallResolverError(Exception):", "_CACHE = {}\n\n\nclass CallResolverError(Exception):"),
     "c07_cache_by_frame_id": ("terms/variable.py", "class Variable:", "_MEMO = {}\n\n\nclass Variable:"),
     "c10_mode_latched_at_build": ("terms/variable.py",
